@@ -155,6 +155,10 @@ def v_atoms_with_attr(depth=2):
     if depth >= 2:
         out.append(('attr', 'n', ('attr', 'm', ('eq', 1))))
         out.append(('attr', 'm', ('attr', 'n', ('inst', int))))
+        # the same attribute name at two nesting levels, with a sibling that still reads the outer value
+        out.append(('attr', 'n', ('and', ('attr', 'n', ('is', P1)), ('is', P2))))
+        out.append(('attr', 'n', ('or', ('inst', uc.UA), ('attr', 'n', ('eq', 1)))))
+        out.append(('attr', 'n', ('and', ('attr', 'n', ('attr', 'n', ('inst', int))), ('inst', uc.UH))))
     return out
 
 
@@ -446,7 +450,7 @@ OVERRIDE_HINTS = {
     'int': int, 'str': str, 'float': float, 'bytes': bytes, 'UA': uc.UA, 'UB': uc.UB, 'None': None,
     'List[int]': List[int], 'List[str]': List[str], 'int|None': Optional[int], 'str|bytes': Union[str, bytes],
     'int|str': Union[int, str], 'Tuple[int,...]': Tuple[int, ...], 'Lit1': Literal[1], 'float|int': Union[float, int],
-    'Set[str]': Set[str], 'UA|None': Optional[uc.UA],
+    'Set[str]': Set[str], 'UA|None': Optional[uc.UA], 'str|float': Union[str, float],
 }
 
 
